@@ -116,4 +116,118 @@ theorem rpow_five_halves {s : ℝ} (hs : 0 < s) : s ^ ((5:ℝ)/2) = (Real.sqrt s
   rw [Real.sqrt_eq_rpow, ← Real.rpow_natCast, ← Real.rpow_mul hs.le]; norm_num
 
 end RE
+/-! ### soundness of the syntactic well-definedness checker (`Core/RE.lean`: `posOK`, `nzOK`, `wdOK`) -/
+
+section WDCheck
+open RE
+
+theorem posOK_sound (ρ : Nat → ℝ) (pos : List RE) (hpos : ∀ e ∈ pos, 0 < eval ρ e) :
+    ∀ e, posOK pos e = true → 0 < eval ρ e := by
+  intro e
+  have hc : ∀ e, pos.contains e = true → 0 < eval ρ e := fun e h => hpos e (List.contains_iff_mem.mp h)
+  induction e with
+  | var j => intro h; exact hc _ (by simpa [posOK] using h)
+  | const n d =>
+    intro h
+    simp only [posOK, Bool.or_eq_true, Bool.and_eq_true, decide_eq_true_eq] at h
+    rcases h with h | ⟨hn, hd⟩
+    · exact hc _ h
+    · simp only [eval]
+      exact div_pos (by exact_mod_cast hn) (by exact_mod_cast hd)
+  | add a b iha ihb =>
+    intro h
+    simp only [posOK, Bool.or_eq_true, Bool.and_eq_true] at h
+    rcases h with h | ⟨ha, hb⟩
+    · exact hc _ h
+    · simp only [eval]; exact add_pos (iha ha) (ihb hb)
+  | sub a b _ _ => intro h; exact hc _ (by simpa [posOK] using h)
+  | mul a b iha ihb =>
+    intro h
+    simp only [posOK, Bool.or_eq_true, Bool.and_eq_true] at h
+    rcases h with h | ⟨ha, hb⟩
+    · exact hc _ h
+    · simp only [eval]; exact mul_pos (iha ha) (ihb hb)
+  | div a b iha ihb =>
+    intro h
+    simp only [posOK, Bool.or_eq_true, Bool.and_eq_true] at h
+    rcases h with h | ⟨ha, hb⟩
+    · exact hc _ h
+    · simp only [eval]; exact div_pos (iha ha) (ihb hb)
+  | neg a _ => intro h; exact hc _ (by simpa [posOK] using h)
+  | pow a n iha =>
+    intro h
+    simp only [posOK, Bool.or_eq_true] at h
+    rcases h with h | ha
+    · exact hc _ h
+    · simp only [eval]; exact pow_pos (iha ha) n
+  | sqrt a iha =>
+    intro h
+    simp only [posOK, Bool.or_eq_true] at h
+    rcases h with h | ha
+    · exact hc _ h
+    · simp only [eval]; exact Real.sqrt_pos.mpr (iha ha)
+
+theorem nzOK_sound (ρ : Nat → ℝ) (pos : List RE) (hpos : ∀ e ∈ pos, 0 < eval ρ e) :
+    ∀ e, nzOK pos e = true → eval ρ e ≠ 0 := by
+  intro e
+  have hp := posOK_sound ρ pos hpos
+  induction e with
+  | var j => intro h; exact (hp _ (by simpa [nzOK] using h)).ne'
+  | const n d =>
+    intro h
+    simp only [nzOK, Bool.or_eq_true, Bool.and_eq_true, decide_eq_true_eq] at h
+    rcases h with h | ⟨hn, hd⟩
+    · exact (hp _ h).ne'
+    · simp only [eval]
+      exact div_ne_zero (by exact_mod_cast hn) (by exact_mod_cast hd)
+  | add a b _ _ => intro h; exact (hp _ (by simpa [nzOK] using h)).ne'
+  | sub a b _ _ => intro h; exact (hp _ (by simpa [nzOK] using h)).ne'
+  | mul a b iha ihb =>
+    intro h
+    simp only [nzOK, Bool.or_eq_true, Bool.and_eq_true] at h
+    rcases h with h | ⟨ha, hb⟩
+    · exact (hp _ h).ne'
+    · simp only [eval]; exact mul_ne_zero (iha ha) (ihb hb)
+  | div a b iha ihb =>
+    intro h
+    simp only [nzOK, Bool.or_eq_true, Bool.and_eq_true] at h
+    rcases h with h | ⟨ha, hb⟩
+    · exact (hp _ h).ne'
+    · simp only [eval]; exact div_ne_zero (iha ha) (ihb hb)
+  | neg a iha =>
+    intro h
+    simp only [nzOK, Bool.or_eq_true] at h
+    rcases h with h | ha
+    · exact (hp _ h).ne'
+    · simp only [eval]; exact neg_ne_zero.mpr (iha ha)
+  | pow a n iha =>
+    intro h
+    simp only [nzOK, Bool.or_eq_true] at h
+    rcases h with h | ha
+    · exact (hp _ h).ne'
+    · simp only [eval]; exact pow_ne_zero n (iha ha)
+  | sqrt a _ => intro h; exact (hp _ (by simpa [nzOK] using h)).ne'
+
+/-- **wdOK_sound**: the checker is sound — a term it accepts is well defined wherever the listed terms are positive -/
+theorem wdOK_sound (ρ : Nat → ℝ) (pos : List RE) (hpos : ∀ e ∈ pos, 0 < eval ρ e) :
+    ∀ e, wdOK pos e = true → WD ρ e := by
+  intro e
+  induction e with
+  | var j => intro _; trivial
+  | const n d => intro _; trivial
+  | add a b iha ihb => intro h; simp only [wdOK, Bool.and_eq_true] at h; exact ⟨iha h.1, ihb h.2⟩
+  | sub a b iha ihb => intro h; simp only [wdOK, Bool.and_eq_true] at h; exact ⟨iha h.1, ihb h.2⟩
+  | mul a b iha ihb => intro h; simp only [wdOK, Bool.and_eq_true] at h; exact ⟨iha h.1, ihb h.2⟩
+  | div a b iha ihb =>
+    intro h; simp only [wdOK, Bool.and_eq_true] at h
+    exact ⟨iha h.1.1, ihb h.1.2, nzOK_sound ρ pos hpos b h.2⟩
+  | neg a iha => intro h; exact iha (by simpa [wdOK] using h)
+  | pow a n iha => intro h; exact iha (by simpa [wdOK] using h)
+  | sqrt a iha =>
+    intro h; simp only [wdOK, Bool.and_eq_true] at h
+    exact ⟨iha h.1, posOK_sound ρ pos hpos a h.2⟩
+
+
+end WDCheck
+
 end HitenModel
